@@ -283,6 +283,7 @@ def shallow_suite(C, M, tag, X, V, depth_label="", lite=False):
         return
     v, B = vec("x", m), mat("y", m, 2)
     w, Bl = vec("z", n), mat("k", 2, n)
+    snaps = [(a, a.copy()) for a in (v, B, w, Bl)]
     C.ob(t + "/matvec", lambda: X @ v, lambda: V @ v, "X @ vector")
     C.ob(t + "/matmat", lambda: X @ B, lambda: V @ B, "X @ matrix")
     C.ob(t + "/rmatvec", lambda: w @ X, lambda: w @ V, "vector @ X")
@@ -295,6 +296,13 @@ def shallow_suite(C, M, tag, X, V, depth_label="", lite=False):
         C.ob(t + "/inverse-matvec", lambda: V @ (X.inv @ w), lambda: w, "view @ (X.inv @ w) == w")
     if isinstance(X, M.PositiveDefiniteMatrix) and has_size:
         C.ob(t + "/sqrt", lambda: (lambda S: (S @ eye(n)) @ (S @ eye(n)).T)(X.sqrt), lambda: V, "sqrt @ sqrt^T == view")
+        z = vec("s", n)
+        zs = z.copy()
+        C.ob(t + "/sqrt-matvec-twice", lambda: X.sqrt @ z, lambda: X.sqrt @ zs.copy(), "sqrt @ v evaluated twice gives the same result")
+        C.flag(t + "/sqrt-matvec-leaves-vector-unchanged", all(a is b for a, b in zip(z.flat, zs.flat)), "X.sqrt @ v modified v in place")
+    same = all(x is y for a, b in snaps for x, y in zip(a.flat, b.flat))
+    C.flag(t + "/operand-arrays-unchanged", same, "an array supplied by the caller to @ was modified in place by the operation",
+           "operations never change the content of arrays supplied by the caller")
     if isinstance(X, M.SquareMatrix) and has_size:
         C.ob(t + "/log_abs_det", lambda: SE(sp.exp(2 * to_obj([X.log_abs_det])[0].e)), lambda: dense_det(V) * dense_det(V), "exp(2 log_abs_det) == det(view)^2")
 
